@@ -29,6 +29,7 @@ type Dgram struct {
 	Cause *Dgram       // step mode: the delivery this transmission reacted to
 	Tag   string       // free for scenarios (attacker label, ...)
 	SrcEP *Endpoint    // the endpoint that made the transmission (nil for attacker-made datagrams)
+	Seq   uint64       // creation order of endpoint transmissions, assigned in the writing goroutine (0 for attacker-made)
 }
 
 func (d *Dgram) clone() *Dgram {
@@ -92,8 +93,9 @@ type NetCfg struct {
 // delivery decision.  Endpoints hand datagrams to it over a channel, so
 // goroutines of the system under test share no lock with each other here.
 type Net struct {
-	r   *Run
-	Cfg NetCfg
+	dseq atomic.Uint64 // creation counter of endpoint transmissions (Dgram.Seq)
+	r    *Run
+	Cfg  NetCfg
 
 	out  chan *Dgram
 	poke chan struct{}
@@ -544,6 +546,9 @@ type Endpoint struct {
 	WriteStall func() time.Duration
 	// WriteErr, when set, may refuse a transmission to dst with an error.
 	WriteErr func(dst *net.UDPAddr) error
+	// OnCreate, when set, sees every datagram this endpoint transmits at the moment it is made, in the goroutine
+	// of the writer (OnSend of the network runs later, in the network's goroutine).
+	OnCreate func(d *Dgram)
 	// DeadlineStall, when set, is asked on every deadline change how long the calling goroutine is held
 	// inside the call (a descheduled thread / stalled node: the deadline itself is set at once).
 	DeadlineStall func() time.Duration
@@ -555,6 +560,9 @@ type Endpoint struct {
 func Addr(host byte, port int) *net.UDPAddr {
 	return &net.UDPAddr{IP: net.IPv4(10, 0, 0, host).To4(), Port: port}
 }
+
+// Dseq returns the number of endpoint transmissions made so far: a datagram created from now on has a larger Seq.
+func (n *Net) Dseq() uint64 { return n.dseq.Load() }
 
 // Listen creates an endpoint bound to addr.  peer may be nil.
 func (n *Net) Listen(name string, addr, peer *net.UDPAddr) *Endpoint {
@@ -645,7 +653,10 @@ func (ep *Endpoint) WriteMsgUDP(b, oob []byte, addr *net.UDPAddr) (int, int, err
 		return 0, 0, &net.OpError{Op: "write", Net: "udp", Err: syscall.EMSGSIZE}
 	}
 	dst := *addr
-	d := &Dgram{Src: ep.addr.Load(), Dst: &dst, Data: append([]byte(nil), b...), SentAt: ep.n.r.Now(), SrcEP: ep}
+	d := &Dgram{Src: ep.addr.Load(), Dst: &dst, Data: append([]byte(nil), b...), SentAt: ep.n.r.Now(), SrcEP: ep, Seq: ep.n.dseq.Add(1)}
+	if ep.OnCreate != nil {
+		ep.OnCreate(d) // (synchronously, in the goroutine that writes)
+	}
 	select {
 	case ep.n.out <- d:
 	case <-ep.n.stop:
